@@ -11,6 +11,7 @@ package replication
 import (
 	"context"
 	"fmt"
+	stdtime "time"
 	"encoding/json"
 	"errors"
 	"io"
@@ -60,6 +61,8 @@ type c33World struct {
 	// native replay of a schedule found symbolically (real goroutines): gates that hold a call until released
 	storeGate, atStoreGate, storeDone chan struct{}
 	acceptGate                        chan struct{}
+	failedOnce                        chan struct{} // closed when the exporter has refused a batch (native replay)
+	nativeFailFirst                   bool
 }
 
 func (w *c33World) note(v string) {
@@ -106,6 +109,11 @@ func (d *c33Driver) Start(context.Context) error { return nil }
 func (d *c33Driver) Stop(context.Context) error  { return nil }
 func (d *c33Driver) Accept(ctx context.Context, logs ...drivers.LogWithLedger) ([]error, error) {
 	w := d.w
+	if w.nativeFailFirst {
+		w.nativeFailFirst = false
+		close(w.failedOnce)
+		return nil, errors.New("injected exporter failure")
+	}
 	if w.pushFaults > 0 && nondetBool("push.fail") {
 		w.pushFaults--
 		c33Yield("exporter:Accept (failing)")
@@ -298,7 +306,8 @@ func Replay_C33_stale_store_after_reset() {
 	if verifIsSymbolic() {
 		return
 	}
-	w, m := c33New(2, 1, 0, 0)
+	// one log: after delivering it the old pipeline idles in its select (pull interval), where the stop reaches it
+	w, m := c33New(1, 1, 0, 0)
 	w.storeGate, w.atStoreGate, w.storeDone = make(chan struct{}), make(chan struct{}), make(chan struct{})
 	c33Gates[w] = w.storeGate
 	w.acceptGate = make(chan struct{})
@@ -321,3 +330,31 @@ func Replay_C33_stale_store_after_reset() {
 var c33Gates = map[*c33World]chan struct{}{}
 
 func gateOf(w *c33World) chan struct{} { return c33Gates[w] }
+
+// Native replay for the stop/start harnesses: the exporter refuses the first batch, the pipeline is stopped while it
+// waits to retry, and started again; everything must still be delivered in order and nothing persisted ahead of it.
+func Replay_C33_stop_during_push_retry() {
+	if verifIsSymbolic() {
+		return
+	}
+	w, m := c33New(3, 2, 0, 0)
+	w.nativeFailFirst, w.failedOnce = true, make(chan struct{})
+	verifAssert("C33:pipeline-starts", m.StartPipeline(c33bg, "p1") == nil)
+	<-w.failedOnce
+	stdtime.Sleep(50 * stdtime.Millisecond) // let the pipeline reach its retry wait
+	verifAssert("C33:pipeline-stops", m.StopPipeline(c33bg, "p1") == nil)
+	stdtime.Sleep(50 * stdtime.Millisecond)
+	ahead := w.pipeline.LastLogID != nil && *w.pipeline.LastLogID > w.lastAck
+	verifAssert("C33:persisted-position-never-ahead-of-acknowledged", !ahead && w.violation != "persisted-ahead-of-acknowledged")
+	verifAssert("C33:pipeline-starts", m.StartPipeline(c33bg, "p1") == nil)
+	deadline := stdtime.Now().Add(3 * stdtime.Second)
+	for stdtime.Now().Before(deadline) && !(w.lastAck == 3 && w.pipeline.LastLogID != nil && *w.pipeline.LastLogID == 3) {
+		stdtime.Sleep(10 * stdtime.Millisecond)
+	}
+	_ = m.StopPipeline(c33bg, "p1")
+	first := uint64(0)
+	if len(w.acked) > 0 {
+		first = w.acked[0]
+	}
+	verifAssert("C33:every-log-delivered-in-order-without-gaps", w.violation == "" && w.lastAck == 3 && first == 1)
+}
